@@ -143,7 +143,10 @@ fn add_types_prefix(ts_type: &str) -> String {
         if matches!(base_type, "string" | "number" | "boolean" | "void") {
             return ts_type.to_string();
         }
-        return format!("types.{}[]", base_type);
+        // The element type can itself be an array, a tuple, a record or a union: qualify it by
+        // its own structure instead of gluing the prefix in front of whatever text is there
+        // (which produced `types.[A, B][]`, `types.string[][]`, `types.Record<..>[]`)
+        return format!("{}[]", add_types_prefix(base_type));
     }
 
     // Handle Record/Map - they contain types but the structure itself doesn't need prefix
@@ -168,8 +171,9 @@ fn add_types_prefix(ts_type: &str) -> String {
         return ts_type.to_string();
     }
 
-    // Custom type - add prefix if not already present
-    if ts_type.starts_with("types.") {
+    // Custom type - add prefix if not already present. Text that is not a plain (possibly
+    // generic-free) name - e.g. a type mapping target such as `{ a: number }` - is left alone.
+    if ts_type.starts_with("types.") || ts_type.chars().any(|c| " {}[]()<>|&,:;\"'".contains(c)) {
         ts_type.to_string()
     } else {
         format!("types.{}", ts_type)
